@@ -35,6 +35,8 @@ type c16Items struct {
 	// serve a tree item even when the tree has no nodes (a tree file whose header says "0 nodes")
 	EmptyOpsTreeFile bool
 	EmptyStsTreeFile bool
+	// items left out of the (re-signed) block map: the source does not serve them at all
+	Withheld []base.BlockItemType
 }
 
 func c16FromBlock(b bbBlock) c16Items {
@@ -165,6 +167,98 @@ func c16OnlyEmptyAgainstRoot(it c16Items, bad []string) bool {
 	}
 
 	return len(bad) > 0
+}
+
+// c16ResignWithout replaces the block map under root by one with the same manifest and the same items and checksums except
+// the withheld item types, signed by signer, in the file format LocalFSWriter gave the original map file (its header
+// line is kept). The production LocalFSWriter always lists a `states` item next to a states tree, so a source that
+// withholds the item has to build its map itself.
+func c16ResignWithout(root string, h base.Height, m base.BlockMap, signer base.LocalNode, withheld []base.BlockItemType) (base.BlockMap, error) {
+	encs, enc := gen.Encoders()
+
+	nm := isaacblock.NewBlockMap()
+	nm.SetManifest(m.Manifest())
+
+	var serr error
+
+	m.Items(func(item base.BlockMapItem) bool {
+		for _, t := range withheld {
+			if item.Type() == t {
+				return true
+			}
+		}
+
+		serr = nm.SetItem(item)
+
+		return serr == nil
+	})
+
+	if serr != nil {
+		return nil, serr
+	}
+
+	if err := nm.Sign(signer.Address(), signer.Privatekey(), gen.NetworkID); err != nil {
+		return nil, err
+	}
+
+	name, err := isaacblock.DefaultBlockItemFileName(base.BlockItemMap, enc.Hint().Type())
+	if err != nil {
+		return nil, err
+	}
+
+	dir := filepath.Join(root, isaac.BlockHeightDirectory(h))
+	path := filepath.Join(dir, name)
+
+	old, err := os.ReadFile(path)
+	if err != nil {
+		return nil, err
+	}
+
+	i := bytes.IndexByte(old, '\n')
+	if i < 0 || !bytes.HasPrefix(old, []byte("# ")) {
+		return nil, fmt.Errorf("map file %s has no header line", path)
+	}
+
+	buf := bytes.NewBuffer(append([]byte(nil), old[:i+1]...))
+	if err := enc.StreamEncoder(buf).Encode(nm); err != nil {
+		return nil, err
+	}
+
+	if err := os.WriteFile(path, buf.Bytes(), 0o600); err != nil {
+		return nil, err
+	}
+
+	// the withheld item files are not served
+	for _, t := range withheld {
+		if fname, err := isaacblock.DefaultBlockItemFileName(t, enc.Hint().Type()); err == nil {
+			_ = os.Remove(filepath.Join(dir, fname))
+		}
+	}
+
+	// read it back the way the importing node's ImportBlocksBlockMapFunc does
+	readers := isaac.NewBlockItemReaders(root, encs, nil)
+	if err := readers.Add(isaacblock.LocalFSWriterHint, isaacblock.NewDefaultItemReaderFunc(3)); err != nil {
+		return nil, err
+	}
+
+	switch rm, found, err := isaac.BlockItemReadersDecode[base.BlockMap](readers.Item, h, base.BlockItemMap, nil); {
+	case err != nil:
+		return nil, err
+	case !found:
+		return nil, fmt.Errorf("re-signed map not found")
+	default:
+		if err := rm.IsValid(gen.NetworkID); err != nil {
+			return nil, fmt.Errorf("re-signed map: %w", err)
+		}
+
+		for _, t := range withheld {
+			if _, found := rm.Item(t); found {
+				return nil, fmt.Errorf("re-signed map still lists %s", t)
+			}
+		}
+
+		return rm, nil
+	}
 }
 
 // c16Validate runs the repository's block validator on the block files under readers.
@@ -324,6 +418,7 @@ func c16Apply(rt *rapid.T, s *c15Src, tm *c16Tamper, it *c16Items) {
 		// the whole `states` item is withheld (no states file, no map item); the genuine states tree is still served
 		tm.Detail = fmt.Sprintf("drop all %d", len(it.States))
 		it.States = nil
+		it.Withheld = []base.BlockItemType{base.BlockItemStates}
 	case "states-dropped-tree-emptied":
 		// no states, and the states-tree item is a tree file of zero nodes (the block map needs the item when the manifest
 		// has a states root)
@@ -331,6 +426,7 @@ func c16Apply(rt *rapid.T, s *c15Src, tm *c16Tamper, it *c16Items) {
 		it.States = nil
 		it.StsTree = fixedtree.EmptyTree()
 		it.EmptyStsTreeFile = true
+		it.Withheld = []base.BlockItemType{base.BlockItemStates}
 	case "all-operations-dropped":
 		tm.Detail = fmt.Sprintf("drop all %d", len(it.Ops))
 		it.Ops = nil
@@ -476,6 +572,12 @@ func TestC16(t *testing.T) {
 		m, err := c16Write(root, h, it, signer)
 		if err != nil {
 			rt.Fatalf("harness: cannot write the tampered block %+v: %+v", tm, err)
+		}
+
+		if len(it.Withheld) > 0 {
+			if m, err = c16ResignWithout(root, h, m, signer, it.Withheld); err != nil {
+				rt.Fatalf("harness: cannot re-sign the block map of %+v: %+v", tm, err)
+			}
 		}
 
 		if tm.Kind == "file-swapped-after-signing" {
